@@ -11,7 +11,7 @@ ID = 'C07'
 LEVEL = 'exploration'
 RULE = ('every non-empty subset of the nine aggregate functions (511, canonical order) + all 72 ordered pairs + aliases, '
         'x argument in {size, hardlinks, uid, line_count, length(name)} x WHERE in {none, all, some, none-matching} x '
-        'trees with 0,1,2,3 and 12 matching entries (fractional means, equal values, sums beyond 2^32); non-trivial = '
+        'trees with 0,1,2,3 and 12 matching entries (fractional means, equal values, sums beyond 2^32, values near 3e9 that differ by single units); arithmetic over aggregates; non-trivial = '
         'at least two matching entries with a non-constant argument')
 ASSUMPTIONS = ['values are compared numerically: integers exactly, AVG/VAR/STDDEV within 1e-9 relative',
                'empty input: only COUNT = 0 and "exactly one row" are asserted',
@@ -38,13 +38,15 @@ TREES = {
     'three': {'a.txt': F(1), 'bb.txt': F(2), 'ccc': F(4)},
     'mixed': {'a.txt': F(data=lines(1)), 'b.txt': F(data='x\ny\nz'), 'sub': D({'c.txt': F(7), 'dd.rs': F(7), 'e': F(0)}),
               'h1': F(5), 'h2': {'t': 'f', 'link': 'h1'}, 'h3': {'t': 'f', 'link': 'h1'}, 'own': F(9, uid=1000, gid=100)},
+    'close': {'c0': F(3 * 10 ** 9, sparse=True), 'c1': F(3 * 10 ** 9 + 1, sparse=True), 'c2': F(3 * 10 ** 9 + 2, sparse=True),
+              'c3': F(3 * 10 ** 9 + 5, sparse=True), 'tiny.txt': F(1)},
     'big': {'big1': F(2 ** 31, sparse=True), 'big2': F(2 ** 32 + 1, sparse=True), 'big3': F(2 ** 40, sparse=True),
             'small.txt': F(3), 'big4.txt': F(2 ** 40, sparse=True)},
 }
 ARGS = ['size', 'hardlinks', 'uid', 'line_count', 'length(name)']
 WHERES = [('none', None, lambda e: True), ('all', 'size gte 0', lambda e: True),
           ('files', 'is_file = true', lambda e: e['file']), ('some', 'name like %.txt', lambda e: e['name'].endswith('.txt')),
-          ('nomatch', 'size gt 9000000000000000', lambda e: False)]
+          ('nomatch', 'size gt 9000000000000000', lambda e: False), ('large', 'size gt 1000000', lambda e: e['size'] > 1000000)]
 
 
 def subsets(tier):
@@ -66,11 +68,21 @@ def subsets(tier):
             yield ['alias:' + al + ':' + f]
 
 
+ARITH = [('max(%s) - min(%s)', lambda v: float(max(v) - min(v))), ('sum(%s) / count(*)', lambda v: sum(v) / len(v)),
+         ('max(%s) + min(%s) * 2', lambda v: float(max(v) + min(v) * 2)), ('count(*) * 10 + min(%s)', lambda v: float(len(v) * 10 + min(v))),
+         ('avg(%s) - min(%s)', lambda v: sum(v) / len(v) - min(v)), ('(max(%s) - min(%s)) / 2', lambda v: (max(v) - min(v)) / 2.0)]
+
+
 def groups(tier, seed):
+    # arithmetic over aggregates (the operand is computed per row only inside the aggregate)
+    for tname in ('three', 'mixed', 'two'):
+        for arg in ('size', 'length(name)', 'hardlinks'):
+            yield {'tree': tname, 'arg': arg, 'where': 'none', 'cases': [{'funcs': ['arith:%d' % i], 'style': 0} for i in range(len(ARITH))]}
+            yield {'tree': tname, 'arg': arg, 'where': 'files', 'cases': [{'funcs': ['arith:%d' % i], 'style': 0} for i in range(len(ARITH))]}
     for tname in TREES:
         for arg in ARGS:
             for wname, wtext, _ in WHERES:
-                if arg == 'line_count' and (wname not in ('files', 'some', 'nomatch') or tname == 'big'):
+                if arg == 'line_count' and (wname not in ('files', 'some', 'nomatch') or tname in ('big', 'close')):
                     continue
                 cases = []
                 for i, ss in enumerate(subsets(tier)):
@@ -154,6 +166,28 @@ def eval_group(env, group, tier):
         if o.rc != 0 or m_diff != len(ents):
             raise core.MachineryError('C07 model/differential row count disagree: %d vs %d %r' % (m_diff, len(ents), o.brief()))
         for c in group['cases']:
+            if c['funcs'][0].startswith('arith:'):
+                tmpl, fexp = ARITH[int(c['funcs'][0][6:])]
+                col = tmpl.replace('%s', arg)
+                q = col + ' from .' + wclause + ' into list'
+                o = env.run([q], cwd=root)
+                case = {'tree': group['tree'], 'arg': arg, 'where': wname, 'funcs': c['funcs'], 'style': 0, 'query': q}
+                res = {'case': case, 'nt': len(set(vals)) >= 2, 'layer': 'arith'}
+                rows = o.rows()
+                ok = o.rc == 0 and not o.err and len(rows) == 1 and vals
+                if ok:
+                    try:
+                        ok = close(rows[0], fexp(vals))
+                    except ValueError:
+                        ok = False
+                if not vals:
+                    continue
+                if not ok:
+                    res.update(status='viol', cls='wrong-aggregate-arithmetic', detail={'query': q, 'got': rows, 'expected': fexp(vals), 'values': vals[:12]}, sig=('arith',))
+                else:
+                    res.update(status='ok', sig=tuple(rows))
+                outs.append(res)
+                continue
             names = []
             for f in c['funcs']:
                 if f.startswith('alias:'):
